@@ -108,6 +108,9 @@ pub fn run(seed: u64, tier: &str, out: &mut Out) {
                     if finished { continue; }
                     if kind == 0 {
                         let el = ms_total - last_upd_ms_total;
+                        // an update without progress (the length is set to what it is: a tick that records the same position) between
+                        // two steady updates: "no matter how often or how irregularly updates arrive"
+                        if rng.chance(1, 4) { match len { Some(l) => { case += &format!(" ; len {l}"); pb.set_length(l); } None => { case += " ; len none"; pb.unset_length(); } } }
                         if (rate as u128 * el as u128) % 1000 != 0 { continue; }   // keep the true rate exactly constant
                         let delta = (rate as u128 * el as u128 / 1000) as u64;
                         if delta == 0 || pos.checked_add(delta).is_none() { continue; }
